@@ -8,6 +8,7 @@ CONSTANTS
   MaxK = 1
   MaxB = 1
   ErrKinds = {"full"}
+  FixKeys = TRUE
 INVARIANT DumpWireInv
 INVARIANT InvRoundTripOrKnown
 INVARIANT InvNoSilentOrKnown
